@@ -438,7 +438,7 @@ type Shared = Arc<HashMap<String, Beatmap>>;
 type HandleSlot = Arc<Mutex<HashMap<String, (GradualDifficulty, u64)>>>;
 
 fn exec_plain(pool: &Pool, maps: &Shared, c: &Call) -> (String, String, bool) {
-    let cfg = &pool.cfgs[&c.cfg];
+    let cfg = pool.cfgs.get(&c.cfg).unwrap_or(&pool.cfgs["-"]);
     let d = cfg.difficulty();
     let key = format!("{}/{}/{}", c.op, c.m, c.cfg);
     let r = guarded(|| match c.op.as_str() {
@@ -446,6 +446,13 @@ fn exec_plain(pool: &Pool, maps: &Shared, c: &Call) -> (String, String, bool) {
         "strains" => format!("{:?}", d.strains(&maps[&c.m])),
         "perf" => format!("{:?}", Performance::new(&maps[&c.m]).difficulty(d.clone()).accuracy(94.2).misses(1).calculate()),
         "bpm" => format!("{:?}", maps[&c.m].bpm()),
+        // performance under Relax / Autopilot / Flashlight with score parameters that differ from job to job (per-call
+        // parameters - effective miss count, mod flags - must live in the call, not in a static)
+        "perfrx" | "perfap" | "perffl" => {
+            let bits = match c.op.as_str() { "perfrx" => 128u32, "perfap" => 8192, _ => 1024 | 128 };
+            let k: u32 = c.cfg.trim_start_matches('P').parse().unwrap_or(1);
+            format!("{:?}", Performance::new(&maps[&c.m]).mods(bits).n100(3 * k).n50(k).misses(2 * k).combo(5 + 7 * k).calculate())
+        }
         "attrs" => format!("{:?}", maps[&c.m].attributes().difficulty(&d).build()),
         "calccatch" => format!("{:?}", d.calculate_for_mode::<rosu_pp::catch::Catch>(&maps[&c.m])),
         "decode" => format!("{:?}", Beatmap::from_bytes(pool.texts[&c.m].as_bytes())),
@@ -583,6 +590,14 @@ pub fn threads_main(args: &[String]) -> i32 {
         }
         for op in ["totaiko", "tocatch"] {
             plain.push(Call { op: op.into(), m: m.into(), cfg: "-".into(), h: "-".into() });
+        }
+    }
+    // performance calculations that differ only in their score parameters, under mods with extra per-score terms
+    for m in ["m1", "m5", "m2"] {
+        for op in ["perfrx", "perfap", "perffl"] {
+            for k in ["P1", "P2", "P5"] {
+                plain.push(Call { op: op.into(), m: m.into(), cfg: k.into(), h: "-".into() });
+            }
         }
     }
     // the unseeded lazer Random mod
